@@ -282,9 +282,7 @@ class SymSeries(_RowsMixin, SymBase):
         if kw.get("method") is not None or value is None:
             raise Unsupported("fillna(method=)")
         if isinstance(value, SymSeries):
-            if self.prov != value.prov:
-                raise Unsupported("fillna with unaligned series")
-            fc = value.cells()
+            fc = value.cells() if self.prov == value.prov else reindex_cells(value, self)
         elif isinstance(value, (dict, SymLabelSeries, SymFrame)):
             raise Unsupported("fillna mapping on series")
         else:
@@ -348,9 +346,7 @@ class SymSeries(_RowsMixin, SymBase):
         if not isinstance(cond, SymSeries) or cond.col.kind != "b" or cond.prov != self.prov:
             raise Unsupported("where/mask condition")
         if isinstance(other, SymSeries):
-            if other.prov != self.prov:
-                raise Unsupported("where other unaligned")
-            oc = other.cells()
+            oc = other.cells() if other.prov == self.prov else reindex_cells(other, self)
         else:
             oc = [lit_cell(other)] * self.nslots
         out = []
@@ -1033,11 +1029,17 @@ class SymFrame(_RowsMixin, SymBase):
     def __setitem__(self, key, val):
         if isinstance(val, SymSeries):
             if val.prov != self.prov:
-                raise Unsupported("assign unaligned series")
-            if not same_valid(self.valid, val.valid):
+                col = Col.from_cells(reindex_cells(val, self))  # pandas reindexes the value to the frame's index
+            elif not same_valid(self.valid, val.valid):
                 raise Unsupported("assign differently filtered series")
-            col = val.col
-        elif isinstance(val, (SymFrame, SymLabelSeries, SymIndex)):
+            else:
+                col = val.col
+        elif isinstance(val, SymIndex):
+            # pandas assigns an Index positionally: only the frame's own (equally filtered) index is modelled
+            if val.prov != self.prov or not same_valid(self.valid, val.valid):
+                raise Unsupported("assign index of a different frame")
+            col = Col.from_cells(val.cells())
+        elif isinstance(val, (SymFrame, SymLabelSeries)):
             raise Unsupported("assign non-series")
         else:
             c = lit_cell(val)
@@ -1118,8 +1120,11 @@ class SymFrame(_RowsMixin, SymBase):
     def fillna(self, value=None, **kw):
         if isinstance(value, dict):
             return self._with(cols=[(k, SymSeries(k, c, **self._row_attrs()).fillna(value[k]).col if k in value else c) for k, c in self.cols])
+        if isinstance(value, SymFrame):
+            # frame.fillna(frame): column by column over the shared labels, rows matched on the index
+            return self._with(cols=[(k, SymSeries(k, c, **self._row_attrs()).fillna(value._series(k)).col if k in value.labels else c) for k, c in self.cols])
         if isinstance(value, SymBase) and not isinstance(value, SymScalar):
-            raise Unsupported("frame fillna with frame/series")
+            raise Unsupported("frame fillna with series")
         return self._map_cols(lambda s: s.fillna(value))
 
     def isin(self, values):
@@ -1448,6 +1453,33 @@ def align_rows(a, b):
         return SymFrame([(k, col(c)) for k, c in x.cols], valid, index, prov, order)
 
     return side(a, 1), side(b, 2)
+
+
+def reindex_cells(other, base):
+    """other.reindex(base.index): the cells of series `other` looked up at the index labels of `base`, NaN where the
+    label is missing (pandas' left alignment in fillna / where / mask; duplicate labels in `other` make pandas raise)"""
+    ia, ib = base.index_, other.index_
+    if not (ia.defined and ib.defined) or ia.labels or ib.labels:
+        raise Unsupported("alignment on an undefined index")
+    if other.col.kind == "b":
+        raise Unsupported("bool column made nullable by alignment")
+    dup = []
+    for i in range(other.nslots):
+        for j in range(i + 1, other.nslots):
+            same = z3.simplify(I(ib.vals[i]) == I(ib.vals[j]))
+            if not is_f(same):
+                dup.append(And(other.valid[i], other.valid[j], same))
+    if dup and decide(Or(*dup)):
+        raise ModelledMisalignment("reindexing from duplicate index labels")
+    oc = other.cells()
+    out = []
+    for i in range(base.nslots):
+        val, null = z3.IntVal(0), T
+        for j in reversed(range(other.nslots)):
+            m = And(other.valid[j], I(ia.vals[i]) == I(ib.vals[j]))
+            val, null = If(m, oc[j].num(), val), If(m, oc[j].null, null)
+        out.append(Cell(val, null, "f"))
+    return out
 
 
 # ---------------------------------------------------------------------------------------------- concat
